@@ -9,6 +9,10 @@ CLAIMS = {
    text="TLC checks AtMostOnce/ExactlyOnce for every list history and worker interleaving in the bounded model; TLC enumerates all 60 879 list histories (<=3 replies of <=3 IDs over 3 IDs) of the environment action, a seeded sample (160 quick / 3000 thorough, plus fixed repeat/permutation shapes and 999/1000-ID window-edge runs) is replayed against the real agent binary and each recorded run must be a behaviour of AgentDedup with every listed ID forwarded and served exactly once; concurrent foreign pollers against the real proxy must be explained by Relay (HandOffOnce).",
    note="Trusted: TLC, fake proxy and counting backend of the harness, hooks Dedup/Spawn/ListOK. Timing of fetch/upload relative to later list replies is varied by seeded delays on the real code and enumerated exhaustively only in the model. Side condition <=1000 distinct IDs is part of the property; 1001-ID run is information only.",
    design="6 C04"),
+ "C07": dict(engine="Relay", technique="TLA+ spec Relay with fault actions (fetch/backend/upload/list faults, local 502/4xx answers) checked by TLC (Isolation, Survives, BadGateway, KeepsPolling; NoIsolation attack) + TLC trace validation (RelayTrace) of fault-injection runs of the real binaries behind a chaos shim and a scripted misbehaving backend",
+   text="TLC explores every placement of a fault among 3 concurrent requests in the model; 12 fault kinds x victim positions are injected into real proxy+agent runs surrounded by healthy concurrent requests, and each recorded run must be a behaviour of Relay in which only declared victims deviate, every other client gets its own OK response, an unreachable backend yields 502, and the agent process is alive at the end.",
+   note="Trusted: TLC, chaos shim / scripted backend of the harness (they declare the victim before injecting). A victim may observe any outcome. Interleavings on the real code are sampled, not enumerated. Thorough tier adds -race builds and 4 victim positions.",
+   design="6 C07"),
  "C01": dict(engine="Relay", technique="TLA+ spec Relay checked by TLC (exhaustive interleavings, liveness, IdCollision attack) + TLC trace validation (RelayTrace) of recorded executions of the real proxy/agent binaries, incl. -race builds",
    text="Bounded-exhaustive model checking of the proxy/agent relay design (all interleavings of 3 requests, 2-3 pollers, faults) plus conformance: every hook/observable event of bursts of up to 64 concurrent clients through the real binaries must be a behaviour of the specification, with the correlation invariants evaluated at every step.",
    note="Trusted: TLC, the token projection of the harness backend/clients, hook placement (receiver side of channel rendezvous). Bounds: 3 requests in the model, <=64 concurrent clients per burst in the runs. Race-detector reports count only with both stacks in repository code.",
